@@ -602,11 +602,11 @@ func splitHeader(enc []byte, v *refVariant) (hdr, rest []byte) {
 //	a node or an error; no panic; no hang (watchdog + read-call bound);
 //	allocation delta <= 64*len(input) + 128 KiB.
 func (c *ctx) checkTrie(m mutant) bool {
-	if m.kind != "truncate" && m.kind != "extend" {
-		if _, giant := refNodeScan(m.data); giant {
-			c.k.Probe("not-executed-giant-declaration")
-			return false
-		}
+	// every kind of input: a truncation of a node whose value bytes end in ff.. can move such bytes into
+	// the place of a length (thorough seeds 4 and 8: a declared gigabyte, two decoders, 90 s of page faults)
+	if _, giant := refNodeScan(m.data); giant {
+		c.k.Probe("not-executed-giant-declaration")
+		return false
 	}
 	decoded := false
 	for _, d := range trieDecoders {
